@@ -439,4 +439,145 @@ theorem foldl_min_ge (l : List Int) (i : Int) (hi : 1 ≤ i) (h : ∀ j ∈ l, 1
     simp only [List.foldl_cons]
     exact ih (min i a) (by have := h a (by simp); omega) (fun j hj => h j (by simp [hj]))
 end lists
+section atoms
+variable {K : Type}
+
+/-- a per-atom property array: leading dimension `natoms`, buffer of the right non-zero size. -/
+def PropOk (natoms : Nat) (a : Arr K) : Prop :=
+  (∃ t, a.shape = natoms :: t) ∧ a.data.length = prodNat a.shape ∧ prodNat a.shape ≠ 0
+
+/-- invariants of an `Atoms` object: `atype` (integers ≥ 1) and `pos` ((natoms,3) floats) first,
+    distinct property names, every property has `natoms` rows. -/
+structure AtomsM.Wf (a : AtomsM K) : Prop where
+  head : ∃ (la : List Int) (lp : List K) (rest : List (String × Arr K)),
+    a.props = ("atype", ⟨[a.natoms], .int la⟩) :: ("pos", ⟨[a.natoms, 3], .flt lp⟩) :: rest ∧ ∀ i ∈ la, 1 ≤ i
+  nodup : (a.props.map Prod.fst).Nodup
+  ok : ∀ p ∈ a.props, PropOk a.natoms p.2
+
+/-- a unit assignment is admissible: `atype` carries no unit, string data carry no unit. -/
+def UnitsOk (a : AtomsM K) (un : String → Option String) : Prop :=
+  un "atype" = none ∧ ∀ p ∈ a.props, ∀ l, p.2.data = .str l → effUnit p.1 (un p.1) = none
+
+variable [Field K]
+
+omit [Field K] in
+theorem node_getStr_unit (v : DM K) (sh : List Nat) (units : Option String) :
+    (DM.node (("value", v) :: (shapeEntry (K := K) sh ++ unitEntry units))).getStr? "unit" = units := by
+  rcases sh with _ | ⟨n, _ | ⟨m, r⟩⟩ <;> cases units <;>
+    simp [DM.getStr?, DM.get?, List.lookup, shapeEntry, unitEntry]
+
+theorem ucModel_unit (fac : String → K) (units : Option String) (a : Arr K) (t : DM K)
+    (h : ucModel fac units a = some t) : t.getStr? "unit" = units := by
+  unfold ucModel at h
+  split at h
+  · cases h
+  · split at h
+    · cases h
+    · cases h
+      exact node_getStr_unit _ _ _
+
+/-- the value of property `p` after writing under `fac1` and reading under `fac2`. -/
+def propTwo (fac1 fac2 : String → K) (un : String → Option String) (p : String × Arr K) : String × Arr K :=
+  (p.1, ⟨p.2.shape, p.2.data.rescale fac1 fac2 (effUnit p.1 (un p.1))⟩)
+
+theorem prop_two (fac1 fac2 : String → K) (a : AtomsM K) (hw : a.Wf) (un : String → Option String)
+    (hu : UnitsOk a un) (p : String × Arr K) (hp : p ∈ a.props) :
+    ∃ t, propModel fac1 a (p.1, un p.1) = some t ∧ propRead fac2 t = some (propTwo fac1 fac2 un p) ∧
+      (t.getStr? "name" = some p.1 ∧ ∃ d, t.get? "data" = some d ∧ d.getStr? "unit" = effUnit p.1 (un p.1)) := by
+  obtain ⟨_, h2, h3⟩ := hw.ok p hp
+  obtain ⟨t, ht1, ht2⟩ := valueUnit_model_two fac1 fac2 (effUnit p.1 (un p.1)) p.2 h2 h3 (hu.2 p hp)
+  refine ⟨DM.node [("name", DM.leaf (Sc.str p.1)), ("data", t)], ?_, ?_, ?_⟩
+  · simp only [propModel, lookup_of_mem_nodup a.props hw.nodup p hp, ht1]
+  · simp [propRead, DM.getStr?, DM.get?, List.lookup, ht2, propTwo]
+  · refine ⟨by simp [DM.getStr?, DM.get?, List.lookup], t, by simp [DM.get?, List.lookup], ?_⟩
+    exact ucModel_unit fac1 _ p.2 t ht1
+
+omit [Field K] in
+theorem mapOpt_map {α β γ : Type} (f : β → Option γ) (g : α → β) (l : List α) :
+    mapOpt f (l.map g) = mapOpt (fun x => f (g x)) l := by
+  induction l with
+  | nil => rfl
+  | cons a l ih => simp [mapOpt, ih]
+
+theorem atomsOfProps_wf (n : Nat) (la : List Int) (lp : List K) (rest : List (String × Arr K))
+    (hla : ∀ i ∈ la, 1 ≤ i) (hne : la ≠ [])
+    (hnd : ((("atype", (⟨[n], .int la⟩ : Arr K)) :: ("pos", ⟨[n, 3], .flt lp⟩) :: rest).map Prod.fst).Nodup)
+    (hsh : ∀ p ∈ rest, ∃ t, p.2.shape = n :: t) :
+    atomsOfProps n (("atype", ⟨[n], .int la⟩) :: ("pos", ⟨[n, 3], .flt lp⟩) :: rest)
+      = some ⟨n, ("atype", ⟨[n], .int la⟩) :: ("pos", ⟨[n, 3], .flt lp⟩) :: rest⟩ := by
+  simp only [List.map_cons, List.nodup_cons, List.mem_cons, not_or] at hnd
+  have hfilter : rest.filter (fun e => e.1 != "atype" && e.1 != "pos") = rest := by
+    rw [List.filter_eq_self]
+    intro e he
+    have h1 : e.1 ≠ "atype" := fun h => hnd.1.2 (by rw [← h]; exact List.mem_map_of_mem he)
+    have h2 : e.1 ≠ "pos" := fun h => hnd.2.1 (by rw [← h]; exact List.mem_map_of_mem he)
+    simp [h1, h2]
+  have hrest : mapOpt (fun e => (bcast n e.2).map (fun a => (e.1, a))) rest = some rest := by
+    have := mapOpt_map_some (fun e : String × Arr K => (bcast n e.2).map (fun a => (e.1, a))) id rest (by
+      intro e he
+      obtain ⟨t, ht⟩ := hsh e he
+      simp [bcast_self n e.2 t ht])
+    simpa using this
+  obtain ⟨i, l, rfl⟩ := List.exists_cons_of_ne_nil hne
+  have hmin : ¬ (l.foldl min i < 1) := by
+    have := foldl_min_ge l i (hla i (by simp)) (fun j hj => hla j (by simp [hj]))
+    omega
+  have hb1 := bcast_self n (⟨[n], .int (i :: l)⟩ : Arr K) [] rfl
+  have hb2 := bcast_self n (⟨[n, 3], .flt lp⟩ : Arr K) [3] rfl
+  simp [atomsOfProps, List.lookup, hfilter, hb1, hb2, hrest, Data.minInt?, hmin]
+
+
+/-- `Atoms(model=t)` on a tree whose `"atoms"` entry lists property trees `ps` that read as `l`. -/
+theorem atomsRead_of (fac2 : String → K) (t : DM K) (n : Nat) (ps : List (DM K)) (l : List (String × Arr K))
+    (ht : t.get? "atoms" = some (DM.node (("natoms", DM.leaf (Sc.int n)) :: appendAll "property" ps)))
+    (hfa : List.Forall₂ (fun p x => propRead fac2 x = some p) l ps)
+    (la : List Int) (lp : List K) (rest : List (String × Arr K))
+    (hl : l = ("atype", ⟨[n], .int la⟩) :: ("pos", ⟨[n, 3], .flt lp⟩) :: rest)
+    (hla : ∀ i ∈ la, 1 ≤ i) (hlane : la ≠ []) (hnd : (l.map Prod.fst).Nodup)
+    (hsh : ∀ p ∈ rest, ∃ t, p.2.shape = n :: t) :
+    atomsRead fac2 t = some ⟨n, l⟩ := by
+  have hread := mapOpt_forall2 (propRead fac2) id l ps (by simpa using hfa)
+  have hfold := foldl_dictSet [] l (by simpa using hnd)
+  have hfinal : atomsOfProps n l = some ⟨n, l⟩ := by
+    subst hl
+    exact atomsOfProps_wf n la lp rest hla hlane hnd hsh
+  subst hl
+  obtain ⟨ta, ps1, _, hfa1, rfl⟩ := List.forall₂_cons_left_iff.mp hfa
+  obtain ⟨tp, trest, _, _, rfl⟩ := List.forall₂_cons_left_iff.mp hfa1
+  simp only [List.map_id] at hread
+  simp only [atomsRead, ht]
+  simp [DM.get?, List.lookup, appendAll, DM.aslist, hread, hfold, hfinal]
+
+omit [Field K] in
+theorem atype_nonempty (a : AtomsM K) (hw : a.Wf) (la : List Int) (x' : String × Arr K) (rest : List (String × Arr K))
+    (h : a.props = ("atype", ⟨[a.natoms], .int la⟩) :: x' :: rest) : la ≠ [] := by
+  rintro rfl
+  obtain ⟨_, h2, h3⟩ := hw.ok ("atype", ⟨[a.natoms], .int []⟩) (by rw [h]; simp)
+  exact h3 (by rw [← h2]; rfl)
+
+/-- what the writer puts under `"atoms"` and what the reader makes of it. -/
+theorem atoms_model_two (fac1 fac2 : String → K) (a : AtomsM K) (hw : a.Wf) (un : String → Option String)
+    (hu : UnitsOk a un) :
+    ∃ t, atomsModel fac1 (a.props.map (fun p => (p.1, un p.1))) a = some t ∧
+      atomsRead fac2 t = some ⟨a.natoms, a.props.map (propTwo fac1 fac2 un)⟩ := by
+  obtain ⟨ps, hps, hfa⟩ := mapOpt_exists (fun p : String × Arr K => propModel fac1 a (p.1, un p.1))
+    (fun p t => propRead fac2 t = some (propTwo fac1 fac2 un p)) a.props
+    (fun p hp => by
+      obtain ⟨t, h1, h2, _⟩ := prop_two fac1 fac2 a hw un hu p hp
+      exact ⟨t, h1, h2⟩)
+  obtain ⟨la, lp, rest, hprops, hla⟩ := hw.head
+  refine ⟨DM.node [("atoms", DM.node (("natoms", DM.leaf (Sc.int a.natoms)) :: appendAll "property" ps))],
+    by simp only [atomsModel, mapOpt_map, hps], ?_⟩
+  have hat : effUnit "atype" (un "atype") = none := by rw [hu.1]; rfl
+  refine atomsRead_of fac2 _ a.natoms ps _ (by simp [DM.get?, List.lookup])
+    (List.forall₂_map_left_iff.mpr hfa) la (lp.map (scaleFn fac1 fac2 (effUnit "pos" (un "pos"))))
+    (rest.map (propTwo fac1 fac2 un)) ?_ hla (atype_nonempty a hw la _ rest hprops) ?_ ?_
+  · rw [hprops]; simp [propTwo, hat, Data.rescale]
+  · have : (a.props.map (propTwo fac1 fac2 un)).map Prod.fst = a.props.map Prod.fst := by
+      simp [List.map_map, Function.comp_def, propTwo]
+    rw [this]; exact hw.nodup
+  · intro p hp
+    obtain ⟨q, hq, rfl⟩ := List.mem_map.mp hp
+    exact (hw.ok q (by rw [hprops]; simp [hq])).1
+end atoms
 end Atomman.C10
